@@ -129,14 +129,16 @@ def check_C02(tier):
 
 NARROW = [["[C]", "[Branch1]", "[Ring1]", "[=Ring1]"], ["[C]", "[=Branch1]", "[Ring1]", "[#C]"], ["[N]", "[Branch1]", "[=Ring1]", "[=C]"],
           ["[C]", "[Ring1]", "[Ring2]", "."], ["[S]", "[#Branch1]", "[Ring1]", "[=N]"], ["[C]", "[Branch2]", "[Ring1]", "[=Ring2]"],
-          ["[P]", "[Branch1]", "[#Ring1]", "[C]"], ["[C]", "[Branch1]", "[-/Ring1]", "[\\/Ring1]"]]
+          ["[P]", "[Branch1]", "[#Ring1]", "[C]"], ["[C]", "[Branch1]", "[-/Ring1]", "[\\/Ring1]"],
+          ["[C]", "[#C]", "[Ring1]", "."], ["[S]", "[#C]", "[Ring1]", "[Branch1]"], ["[C]", "[=C]", "[=Ring1]", "."]]
 
 
 def narrow_deep(rep, quick, rng, table="default"):
     """Few symbols, long strings: interplay of several rings and branches on the same atoms needs 8-10 symbols
     (a ring from inside a branch back to the branch root, then the root's own ring; rings on rings; budgets that
     run out inside an index).  Every string over a 4-symbol alphabet up to 9 symbols, exhaustively."""
-    alphas = [NARROW[0], NARROW[1 + seed() % (len(NARROW) - 1)]] if quick else NARROW
+    # quick: the first alphabet, one with fragments and multiple bonds, one more chosen by VERIF_SEED
+    alphas = [NARROW[0], NARROW[8], NARROW[1 + seed() % (len(NARROW) - 1)]] if quick else NARROW
     for i, alpha in enumerate(alphas):
         gen_replay(rep, "narrow%d_%s" % (i, tabname(table)), alpha, table, 9 if quick else 10, fastjit=quick, deep=True)
     if not quick:
@@ -572,6 +574,24 @@ def check_C13(tier):
         npad += 1
         if a != b:
             rep.violation("padded string decodes differently: %r vs %r" % (a, b), {"input": s, "padded": back})
+    # the same for strings that already carry [nop] in the middle or in front (padding is not always trailing)
+    for base, padded in pairs[: (60 if quick else 400)]:
+        s = "".join(padded)
+        symbols = sorted(set(padded) | {"[nop]", "."})
+        stoi = {x: i for i, x in enumerate(symbols)}
+        itos = {i: x for x, i in stoi.items()}
+        for et in ("label", "one_hot"):
+            try:
+                enc = sf.selfies_to_encoding(s, stoi, pad_to_len=len(padded) + rng.randint(0, 4), enc_type=et)
+                back = sf.encoding_to_selfies(enc, itos, enc_type=et)
+            except Exception as e:
+                rep.violation("padding utilities raised %s on %r" % (type(e).__name__, s), {"input": s})
+                continue
+            a, b = de.call_decoder("".join(base)), de.call_decoder(back)
+            npad += 1
+            if a != b:
+                rep.violation("a string with interior [nop], padded and recovered through the %s encoding, decodes differently: "
+                              "%r vs %r" % (et, a, b), {"input": s, "recovered": back})
     rep.traces += npad
     rep.notes["padding_round_trips"] = npad
     rep.exhaustive = True
